@@ -78,9 +78,10 @@ def main(args, verif_seed):
     results = {}
     summary = []
     ok_all = True
+    only = os.environ.get("VERIF_MUTANT_ONLY")
     for m in MUTANTS:
         props = [p for p in m["props"] if want_props is None or p in want_props]
-        if not props:
+        if not props or (only and only not in m["id"]):
             continue
         copy = make_copy(repo)
         try:
@@ -95,7 +96,7 @@ def main(args, verif_seed):
                 tests_ok, tail = run_tests(copy)
             for prop in props:
                 rc, lines, wall = run_check(copy, prop, args.runs, verif_seed)
-                killed = rc == 1
+                killed = rc == 1 and any(ln.startswith("VIOLATION property=%s " % prop) for ln in lines)
                 if not killed:
                     ok_all = False
                 print("MUTANT %-34s %s: %s (exit %d, %.0fs) tests:%s %s"
